@@ -429,6 +429,9 @@ def run(ctx):
     importlib.import_module("rules.c09").d1(db, rep, "D7-CHUNK-LINKS", "D7-CHUNK-LINKS")
     # D8: no stale copy of a program's code is used while the program is attached (shared with C06)
     importlib.import_module("rules.c06").snapshot_slots(db, rep, "D8-LIVE-CODE")
+    # D9: descriptor, file name and mappings acquired while a code region is created are released on every exit of the attempt
+    # (a compile that cannot get executable memory repeats the attempt each time: a leak there grows with the iterations; shared with C06)
+    importlib.import_module("rules.c06").dual_map_pairing(db, rep, "D9-OS-RESOURCES")
 
     if n6 < 6:
         raise AnalysisBroken("only %d free-then-null instances found" % n6)
